@@ -118,7 +118,10 @@ impl SentenceDetector {
         let input_exceeds_limit = s.len() < input.len();
 
         lazy_static! {
-            static ref SENTENCE_BREAKER: Regex = Regex::new(&format!(
+            // The look-arounds put this pattern on the backtracking engine, which needs about six
+            // steps per character without a match. Its default budget of 1,000,000 steps is used up
+            // by a window of about 166,000 characters; the window size is chosen by the caller.
+            static ref SENTENCE_BREAKER: Regex = fancy_regex::RegexBuilder::new(&format!(
                 "([{}]|{}+|(?<![{}])[{}](?![{}{}]))[{}{}]*|{}",
                 PERIODS,
                 CDOTS,
@@ -130,6 +133,8 @@ impl SentenceDetector {
                 PERIODS,
                 BR_TAG
             ))
+            .backtrack_limit(usize::MAX)
+            .build()
             .unwrap();
             static ref ITEMIZE_HEADER: Regex =
                 Regex::new(&format!("^([{}])([{}])$", ALPHABET_OR_NUMBER, DOT)).unwrap();
